@@ -308,6 +308,25 @@ pub fn seed_recreated_from_zero() -> Seed {
     p.seed("recreated-from-zero:a")
 }
 
+/// As `recreated-from-zero`, but the first incarnation of a was emptied by a truncation (it sat
+/// empty at position 3) before it was deleted: if the deletion entry is lost, replay meets the
+/// re-creation entry (position 0) on an existing, empty queue whose next position is 3.
+pub fn seed_recreated_after_emptied() -> Seed {
+    let mut p = Planner::new();
+    p.push(Op::Create(QA))
+        .push(s3(QA))
+        .push(s3(QA))
+        .push(s3(QA))
+        .push(Op::Trunc { q: QA, at: Tr::Last })
+        .push(Op::Delete(QA))
+        .push(Op::Create(QA))
+        .push(s3(QA))
+        .push(s3(QA))
+        .push(Op::Create(QB))
+        .push(s3(QB));
+    p.seed("recreated-after-emptied:a")
+}
+
 pub fn seed_future() -> Seed {
     let mut p = Planner::new();
     p.push(Op::Create(QA))
@@ -332,6 +351,7 @@ pub fn structural_seeds() -> Vec<Seed> {
         seed_gc_ready(),
         seed_recreated(),
         seed_recreated_from_zero(),
+        seed_recreated_after_emptied(),
         seed_future(),
     ]
 }
